@@ -295,6 +295,38 @@ func genC10(r *Rand, tier string) *Case {
 	if !ok {
 		c, _ = c10Case(L, 'Q', int64(eff)+1, 0, false, cuts)
 	}
+	if c.Variant == "" && body > int64(eff) && body < 1<<20 && r.Chance(1, 4) {
+		// the oversized message arrives in two flights: its header and a part of
+		// its body, then - once the server waits for more - the rest. Nothing is
+		// answered before the message has been skipped in full.
+		st := c.Conns[0].Steps
+		for si := 1; si+1 < len(st); si++ {
+			if n := len(st[si].Msgs); n > 0 && st[si].Msgs[n-1].DeclaredBody() > int64(eff) {
+				st[si].HoldBack = r.PickInt(5, 6, 9, 5+eff/2, 5+eff, int(body))
+				break
+			}
+		}
+	}
+	if c.Variant == "" && body > int64(eff) && body < 1<<16 && r.Chance(1, 6) {
+		// one read in the middle of the exchange reports a timeout (nothing is
+		// lost, the next read succeeds): whether the server gives the connection
+		// up or carries on, it never answers differently from the undisturbed run
+		c.Variant = "transient-read-timeout"
+		cut := r.PickInt(7, 20, 50, 100, 1000)
+		c.Conns[0].Cuts = []int{cut}
+		// (the read that fails is drawn from all reads of the exchange, most of
+		// which deliver pieces of the oversized body)
+		var total int64
+		for _, st := range c.Conns[0].Steps {
+			for i := range st.Msgs {
+				for _, ch := range st.Msgs[i].Encode() {
+					total += ch.Len()
+				}
+			}
+		}
+		c.Conns[0].Faults = []Fault{{Kind: "read-timeout", At: r.Range(1, int(total)/cut+len(c.Conns[0].Steps)+2), Timeout: true}}
+		return c
+	}
 	if r.Chance(1, 5) && eff >= 64 {
 		// a pass-through auth strategy hands the harness the connection's reader:
 		// its window is watched for blocks larger than the limit
@@ -419,6 +451,46 @@ func checkC10(x *Exec, c *Case) ([]Violation, bool) {
 					break
 				}
 			}
+		case "transient-read-timeout":
+			ref := c.Clone()
+			ref.Conns[i].Faults = nil
+			rr := x.Run(ref)
+			rt := ParseOut(rr.Conns[i])
+			if rt.Grammar != nil || cs.FaultFired["read-timeout"] == 0 {
+				break
+			}
+			nt = true
+			want, got := pgwire.Kinds(rt.Msgs), kinds
+			gotMsgs := t.Msgs
+			// what the server sent after the read that timed out
+			after := 0
+			for _, m := range gotMsgs {
+				if m.Off+t.Base >= cs.TimeoutOut {
+					after++
+				}
+			}
+			carriedOn := after > 1 || (after == 1 && gotMsgs[len(gotMsgs)-1].Type != 'E')
+			if carriedOn {
+				// the server went on serving the connection: no byte was lost, so
+				// everything is answered exactly as in the undisturbed run
+				if Canonical(gotMsgs) != Canonical(rt.Msgs) {
+					add("diverges-after-read-timeout", "diverges-after-read-timeout carried-on", fmt.Sprintf("conn %d: one read reported a timeout (no byte lost) and the server carried on; it answered %q, the undisturbed run %q", i, got, want))
+				}
+				if a, b := CallbackTrace(cs), CallbackTrace(rr.Conns[i]); a != b {
+					add("diverges-after-read-timeout", "diverges-after-read-timeout carried-on callbacks", fmt.Sprintf("conn %d: one read reported a timeout (no byte lost) and the server carried on; its callbacks differ from those of the undisturbed run:\n  with timeout: %s\n  undisturbed:  %s", i, trunc(strings.ReplaceAll(a, "\n", "; "), 300), trunc(strings.ReplaceAll(b, "\n", "; "), 300)))
+				}
+				break
+			}
+			// (it gave the connection up, and may tell the client why)
+			if n := len(gotMsgs); n > 0 && after == 1 {
+				gotMsgs = gotMsgs[:n-1]
+			}
+			if len(gotMsgs) > len(rt.Msgs) || Canonical(gotMsgs) != Canonical(rt.Msgs[:len(gotMsgs)]) {
+				add("diverges-after-read-timeout", "diverges-after-read-timeout", fmt.Sprintf("conn %d: one read reported a timeout (no byte lost); the server answered %q, the undisturbed run %q - neither the same nor a prefix of it", i, got, want))
+			}
+			if a, b := CallbackTrace(cs), CallbackTrace(rr.Conns[i]); !strings.HasPrefix(b, a) {
+				add("diverges-after-read-timeout", "diverges-after-read-timeout callbacks", fmt.Sprintf("conn %d: one read reported a timeout (no byte lost); the callbacks that ran are not a prefix of those of the undisturbed run:\n  with timeout: %s\n  undisturbed:  %s", i, trunc(strings.ReplaceAll(a, "\n", "; "), 300), trunc(strings.ReplaceAll(b, "\n", "; "), 300)))
+			}
 		case "copy":
 			nt = true
 			ne := 0
@@ -454,7 +526,7 @@ func checkC10(x *Exec, c *Case) ([]Violation, bool) {
 func init() {
 	register(&Prop{
 		ID: "C10", Level: "exploration", QuickS: 25, ThoroughS: 420,
-		Rule:       "enumerated boundary grid (limits {5,16,64,100,1000,4095,4096,4097,65536} x message types {Q,P,B,D,E,C,H,S,X,d,c,f,unknown} x declared body {L-1,L,L+1} x position {first, after a simple cycle, inside a pipelined extended batch, while discarding after a failed extended message}; startup packets and password messages of body {L-1,L,L+1,2L}; declared lengths 0-3 for five message types and the startup packet) plus seeded cases (the same dimensions with bodies 2L, 2L+1, 64 MiB, 2^31-5, 2^32-5, fully supplied by a synthetic pattern that spells valid protocol messages or cut short, default limit for a small share, arbitrary segmentation of the skipped body, oversized CopyData / CopyFail / foreign messages inside COPY mode); judged by the size-rule model (the ReadyForQuery after the 54000 error is optional here), 'no callback sees a byte of a skipped body', a per-step allocation bound of 4L+16MiB measured from runtime/metrics, and recovery of the following message; non-trivial = the case contains a message at or beyond the boundary; distinct = distinct case content hashes",
+		Rule:       "enumerated boundary grid (limits {5,16,64,100,1000,4095,4096,4097,65536} x message types {Q,P,B,D,E,C,H,S,X,d,c,f,unknown} x declared body {L-1,L,L+1} x position {first, after a simple cycle, inside a pipelined extended batch, while discarding after a failed extended message}; startup packets and password messages of body {L-1,L,L+1,2L}; declared lengths 0-3 for five message types and the startup packet) plus seeded cases (the same dimensions with bodies 2L, 2L+1, 64 MiB, 2^31-5, 2^32-5, fully supplied by a synthetic pattern that spells valid protocol messages or cut short, default limit for a small share, arbitrary segmentation of the skipped body, oversized CopyData / CopyFail / foreign messages inside COPY mode); judged by the size-rule model (the ReadyForQuery after the 54000 error is optional here), 'no callback sees a byte of a skipped body', a per-step allocation bound of 4L+16MiB measured from runtime/metrics, and recovery of the following message; oversized messages delivered in two flights (header and part of the body first: nothing is answered before the message has been skipped in full); one read of the exchange reports a transient timeout (no byte lost): compared with the undisturbed run - identical if the server carries on, a prefix if it gives the connection up; non-trivial = the case contains a message at or beyond the boundary; distinct = distinct case content hashes",
 		Exhaustive: "the boundary grid listed in the rule is enumerated completely in both tiers",
 		Components: e1Components, Assumptions: commonAssumptions,
 		Fixed: c10Fixed,
